@@ -54,7 +54,7 @@ type scCase struct {
 
 // One rendering's outcome.  To keep the trace small a rendering whose outcome is deep-equal to that of an
 // earlier style of the same case is written as {"same": "<style>"} (lossless; TraceScenarioConfig resolves it).
-type scOut struct {
+type scfOut struct {
 	Same string      `json:"same,omitempty"`
 	Err  string      `json:"err"`
 	Cfg  interface{} `json:"cfg,omitempty"`
@@ -64,7 +64,7 @@ type scOut struct {
 type scLine struct {
 	ID  int              `json:"id"`
 	Key json.RawMessage  `json:"key"`
-	Out map[string]scOut `json:"out"`
+	Out map[string]scfOut `json:"out"`
 }
 
 type jmap = map[string]interface{}
@@ -291,10 +291,10 @@ func providerAmmos(p core.Provider) interface{} {
 
 // ------------------------------------------------------------------ running the real code
 
-func scRun(fs afero.Fs, kind, file, text string) (out scOut) {
+func scRun(fs afero.Fs, kind, file, text string) (out scfOut) {
 	defer func() {
 		if r := recover(); r != nil {
-			out = scOut{Err: fmt.Sprintf("panic: %v", r)}
+			out = scfOut{Err: fmt.Sprintf("panic: %v", r)}
 		}
 	}()
 	if err := afero.WriteFile(fs, file, []byte(text), 0644); err != nil {
@@ -302,14 +302,14 @@ func scRun(fs afero.Fs, kind, file, text string) (out scOut) {
 	}
 	cfg, err := scnconfig.ReadAmmoConfig(fs, file)
 	if err != nil {
-		return scOut{Err: "ReadAmmoConfig: " + err.Error()}
+		return scfOut{Err: "ReadAmmoConfig: " + err.Error()}
 	}
 	out.Cfg = pConfig(cfg)
 	// the provider through the registered factory, as the engine config would create it
 	var holder struct{ Ammo core.Provider }
 	conf := map[string]interface{}{"ammo": map[string]interface{}{"type": kind + "/scenario", "file": file}}
 	if err := coreconfig.Decode(conf, &holder); err != nil {
-		return scOut{Err: "provider: " + err.Error(), Cfg: out.Cfg}
+		return scfOut{Err: "provider: " + err.Error(), Cfg: out.Cfg}
 	}
 	switch as := providerAmmos(holder.Ammo).(type) {
 	case []*httpgun.Scenario:
@@ -426,9 +426,9 @@ func scenconfigMain(args []string) {
 }
 
 func scOne(fs afero.Fs, wk, id int, c scCase) (scLine, map[string]string) {
-	line := scLine{ID: id, Key: c.Key, Out: map[string]scOut{}}
+	line := scLine{ID: id, Key: c.Key, Out: map[string]scfOut{}}
 	rendered := map[string]string{}
-	full := map[string]scOut{}
+	full := map[string]scfOut{}
 	for i, st := range scStyles {
 		if (id+scSeed())%st.every != 0 {
 			continue
@@ -440,7 +440,7 @@ func scOne(fs afero.Fs, wk, id int, c scCase) (scLine, map[string]string) {
 		line.Out[st.name] = o
 		for _, prev := range scStyles[:i] {
 			if p, ok := full[prev.name]; ok && reflect.DeepEqual(p, o) {
-				line.Out[st.name] = scOut{Same: prev.name}
+				line.Out[st.name] = scfOut{Same: prev.name}
 				break
 			}
 		}
